@@ -107,7 +107,10 @@ class IntEnc:
         if op == 'or': return z3.Or(*a)
         if op == 'not': return z3.Not(a[0])
         if op == 'iff': return a[0] == a[1]
-        if op == 'forall': return z3.ForAll([z3.Int(x) for x in n.val], a[0])
+        if op == 'forall':
+            if len(a) > 1:
+                return z3.ForAll([z3.Int(x) for x in n.val], a[0], patterns=[a[1] if len(a) == 2 else z3.MultiPattern(*a[1:])])
+            return z3.ForAll([z3.Int(x) for x in n.val], a[0])
         if op == 'exists': return z3.Exists([z3.Int(x) for x in n.val], a[0])
         raise KeyError(op)
 
